@@ -77,6 +77,26 @@ def handle (ts : List String) : Option String :=
         let a ← a.mapM cpGc; let b ← b.mapM cpGc; let c ← c.mapM cpGc
         pure (showRes (joinWithContext tbl ctxLen (a.map (·.2)) (b.map (·.2)) (c.map (·.2))))
       | _ => none
+  | "joinraw" :: pl :: ql :: rest =>
+      match splitSlash rest with
+      | [a, b, c] => do
+        let pl ← pl.toNat?; let ql ← ql.toNat?
+        let a ← a.mapM cpGc; let b ← b.mapM cpGc; let c ← c.mapM cpGc
+        -- the arrays have `ctxLen` slots: missing slots are NUL (joining type U), lengths are capped
+        let nul := getJoiningType (rawJoiningType RbModel.Gen.Arabic.joiningRanges 0) 0
+        let pad := fun (l : List JoiningType) => (l ++ List.replicate (ctxLen - l.length) nul).take ctxLen
+        pure (showRes (arabicJoiningRaw tbl (pad (a.map (·.2))) (min pl ctxLen) (b.map (·.2))
+          (pad (c.map (·.2))) (min ql ctxLen)))
+      | _ => none
+  | "ctxseq" :: rest => do
+      let calls ← rest.mapM (fun t => match splitOn1 t ':' with
+        | [k, cps] => do
+          let l ← if cps.isEmpty then some [] else (cps.splitOn ",").mapM String.toNat?
+          match k with
+          | "p" => some (CtxCall.pre l) | "q" => some (CtxCall.post l) | "a" => some (CtxCall.add l) | _ => none
+        | _ => none)
+      let st := (CtxState.fresh ctxLen 0).calls calls
+      pure (s!"{st.preLen} {st.postLen} / " ++ joinNats st.pre ++ " / " ++ joinNats st.post)
   | "masks" :: mong :: rest =>
       match splitSlash rest with
       | [ma, a, b, c] => do
